@@ -1,261 +1,151 @@
-/-! Feasibility prototype: one flooding round from a quiescent state yields the true adjacency
-    at every node of the component (C01 protocol layer). Static symmetric topology. -/
-namespace Flood
+import Receptor.Model.Flood
+namespace Receptor.Flood
 
-abbrev Node := Nat
-abbrev UId := Nat
-abbrev Adj := List (Node × Nat)
+namespace KMap
 
-structure Update where
-  origin : Node
-  id : UId
-  seq : Nat
-  conns : Adj
-deriving DecidableEq
+theorem get?_set_self {α} (m : KMap α) (k : Node) (v : α) : get? (set m k v) k = some v := by
+  simp only [get?, set, erase]
+  rw [List.find?_append]
+  have h1 : (m.filter fun e => e.1 != k).find? (fun e => e.1 == k) = none := by
+    rw [List.find?_eq_none]
+    intro x hx
+    simp only [List.mem_filter] at hx
+    simp at hx ⊢
+    exact hx.2
+  simp [h1]
 
-structure NodeSt where
-  info  : Node → Option Nat
-  known : Node → Option Adj
-  seen  : List UId
+theorem get?_set_other {α} (m : KMap α) (k k' : Node) (v : α) (h : k' ≠ k) :
+    get? (set m k v) k' = get? m k' := by
+  simp only [get?, set, erase]
+  rw [List.find?_append]
+  have h2 : ([(k, v)] : KMap α).find? (fun e => e.1 == k') = none := by
+    have : (k == k') = false := by simp [Ne.symm h]
+    simp [List.find?, this]
+  have h1 : (m.filter fun e => e.1 != k).find? (fun e => e.1 == k') = m.find? (fun e => e.1 == k') := by
+    induction m with
+    | nil => rfl
+    | cons e es ih =>
+      simp only [List.filter]
+      by_cases hk : e.1 = k
+      · have : (e.1 != k) = false := by simp [hk]
+        simp only [this]
+        rw [ih]
+        have : (e.1 == k') = false := by simp [hk, Ne.symm h]
+        simp [List.find?, this]
+      · have : (e.1 != k) = true := by simp [hk]
+        simp only [this, List.find?]
+        by_cases hk' : e.1 = k'
+        · simp [hk']
+        · have : (e.1 == k') = false := by simp [hk']
+          simp only [this]
+          exact ih
+  rw [h1, h2]
+  cases m.find? (fun e => e.1 == k') <;> simp
 
-structure Net where
-  st   : Node → NodeSt
-  q    : Node → Node → List Update
-  seq  : Node → Nat
-  cur  : Node → Option UId      -- ghost: id of the latest own update
-  used : List UId
+end KMap
 
-def hasKey (l : Adj) (x : Node) : Bool := l.any (fun e => e.1 == x)
+@[simp] theorem markSeen_id (s : NodeState) (i : UpdateID) : (markSeen s i).id = s.id := rfl
+@[simp] theorem markSeen_info (s : NodeState) (i : UpdateID) : (markSeen s i).info = s.info := rfl
+@[simp] theorem markSeen_known (s : NodeState) (i : UpdateID) : (markSeen s i).known = s.known := rfl
+@[simp] theorem markSeen_conns (s : NodeState) (i : UpdateID) : (markSeen s i).conns = s.conns := rfl
+@[simp] theorem markSeen_seen (s : NodeState) (i : UpdateID) : (markSeen s i).seen = s.seen ++ [i] := rfl
 
-/-- handleRoutingUpdate's prune: every other origin that the update does not list loses its edge to the update's origin -/
-def prune (me : Node) (u : Update) (k : Node → Option Adj) : Node → Option Adj := fun x =>
-  if x = me then k x
-  else if hasKey u.conns x then k x
-  else (k x).map (fun l => l.filter (fun e => e.1 != u.origin))
+theorem noticeStep_id (s : NodeState) (u : Update) : (noticeStep s u).id = s.id := by
+  unfold noticeStep; split
+  · split <;> rfl
+  · rfl
+theorem noticeStep_seen (s : NodeState) (u : Update) : (noticeStep s u).seen = s.seen := by
+  unfold noticeStep; split
+  · split <;> rfl
+  · rfl
+theorem noticeStep_known (s : NodeState) (u : Update) : (noticeStep s u).known = s.known := by
+  unfold noticeStep; split
+  · split <;> rfl
+  · rfl
+theorem noticeStep_conns (s : NodeState) (u : Update) : (noticeStep s u).conns = s.conns := by
+  unfold noticeStep; split
+  · split <;> rfl
+  · rfl
 
-def accept (me : Node) (s : NodeSt) (u : Update) : NodeSt :=
-  let k1 : Node → Option Adj := fun x => if x = u.origin then some u.conns else s.known x
-  { info := fun x => if x = u.origin then some u.seq else s.info x
-    known := if s.known u.origin = some u.conns then s.known else prune me u k1
-    seen := s.seen }
+theorem selfStep_id (s : NodeState) (u : Update) (fresh : UpdateID) : (selfStep s u fresh).1.id = s.id := by
+  unfold selfStep originate
+  repeat' split
+  all_goals rfl
 
-/-- returns new state and whether the update is relayed -/
-def handle (me : Node) (s : NodeSt) (u : Update) : NodeSt × Bool :=
-  if u.origin = me then (s, false)
-  else if u.id ∈ s.seen then (s, false)
-  else
-    let s1 : NodeSt := { s with seen := u.id :: s.seen }
-    match s.info u.origin with
-    | some k => if u.seq ≤ k then (s1, false) else (accept me s1 u, true)
-    | none => (accept me s1 u, true)
+theorem selfStep_seen (s : NodeState) (u : Update) (fresh : UpdateID) : (selfStep s u fresh).1.seen = s.seen := by
+  unfold selfStep originate
+  repeat' split
+  all_goals rfl
 
-variable (adj : Node → Adj)
-
-def nbr (a b : Node) : Prop := hasKey (adj a) b = true
-
-def originate (σ : Net) (m : Node) (i : UId) : Net :=
-  let u : Update := ⟨m, i, σ.seq m + 1, adj m⟩
-  { st := σ.st
-    q := fun a b => if a = m ∧ hasKey (adj m) b then u :: σ.q a b else σ.q a b
-    seq := fun x => if x = m then σ.seq m + 1 else σ.seq x
-    cur := fun x => if x = m then some i else σ.cur x
-    used := i :: σ.used }
-
-def deliverR (σ : Net) (a b : Node) (u : Update) (r : NodeSt × Bool) : Net :=
-  { st := fun x => if x = b then r.1 else σ.st x
-    q := fun x y =>
-      if x = a ∧ y = b then (σ.q a b).erase u
-      else if r.2 = true ∧ x = b ∧ y ≠ a ∧ hasKey (adj b) y then u :: σ.q x y
-      else σ.q x y
-    seq := σ.seq
-    cur := σ.cur
-    used := σ.used }
-
-def deliver (σ : Net) (a b : Node) (u : Update) : Net :=
-  deliverR adj σ a b u (handle b (σ.st b) u)
-
-inductive Step : Net → Net → Prop
-  | orig (σ : Net) (m : Node) (i : UId) : i ∉ σ.used → Step σ (originate adj σ m i)
-  | dlv (σ : Net) (a b : Node) (u : Update) : u ∈ σ.q a b → Step σ (deliver adj σ a b u)
-
-inductive Reach (σ0 : Net) : Net → Prop
-  | base : Reach σ0 σ0
-  | step {σ σ'} : Reach σ0 σ → Step adj σ σ' → Reach σ0 σ'
-
-end Flood
-
-namespace Flood
-variable {adj : Node → Adj}
-
-/-! ### case analysis of `handle` -/
-inductive HCase (me : Node) (s : NodeSt) (u : Update) : NodeSt × Bool → Prop
-  | self : u.origin = me → HCase me s u (s, false)
-  | dup : u.origin ≠ me → u.id ∈ s.seen → HCase me s u (s, false)
-  | stale (k : Nat) : u.origin ≠ me → u.id ∉ s.seen → s.info u.origin = some k → u.seq ≤ k →
-      HCase me s u ({ s with seen := u.id :: s.seen }, false)
-  | acc : u.origin ≠ me → u.id ∉ s.seen → (∀ k, s.info u.origin = some k → k < u.seq) →
-      HCase me s u (accept me { s with seen := u.id :: s.seen } u, true)
-
-theorem handle_cases (me : Node) (s : NodeSt) (u : Update) : HCase me s u (handle me s u) := by
-  unfold handle
-  by_cases h1 : u.origin = me
-  · simp only [h1, if_true]; exact HCase.self h1
-  · simp only [h1, if_false]
-    by_cases h2 : u.id ∈ s.seen
-    · simp only [h2, if_true]; exact HCase.dup h1 h2
-    · simp only [h2, if_false]
-      cases hk : s.info u.origin with
-      | none =>
-        simp only
-        exact HCase.acc h1 h2 (by intro k hk'; rw [hk] at hk'; cases hk')
-      | some k =>
-        simp only
-        by_cases h3 : u.seq ≤ k
-        · simp only [h3, if_true]; exact HCase.stale k h1 h2 hk h3
-        · simp only [h3, if_false]
-          exact HCase.acc h1 h2 (by intro k' hk'; rw [hk] at hk'; cases hk'; omega)
-
-/-! ### adjacency facts -/
-structure Topo (adj : Node → Adj) : Prop where
-  sym : ∀ a b, hasKey (adj a) b = true → hasKey (adj b) a = true
-  irrefl : ∀ a, hasKey (adj a) a = false
-
-theorem filter_ne_self_of_not_key (l : Adj) (o : Node) (h : hasKey l o = false) :
-    l.filter (fun e => e.1 != o) = l := by
-  apply List.filter_eq_self.mpr
-  intro e he
-  simp only [hasKey, List.any_eq_false] at h
-  have := h e he
-  simpa using this
-
-def Upd (σ : Net) (n m : Node) : Prop := (σ.st n).info m = some (σ.seq m)
-
-structure Good (adj : Node → Adj) (seq0 : Node → Nat) (σ : Net) : Prop where
-  seqMono : ∀ m, seq0 m ≤ σ.seq m
-  noFuture : ∀ n m k, (σ.st n).info m = some k → k ≤ σ.seq m
-  seenUsed : ∀ n i, i ∈ (σ.st n).seen → i ∈ σ.used
-  curUsed : ∀ m i, σ.cur m = some i → i ∈ σ.used
-  qOk : ∀ a b u, u ∈ σ.q a b → hasKey (adj a) b = true ∧ u.seq ≤ σ.seq u.origin ∧ u.id ∈ σ.used ∧
-          u.conns = adj u.origin
-  qCur : ∀ a b u, u ∈ σ.q a b → u.seq = σ.seq u.origin → σ.cur u.origin = some u.id ∧ (a = u.origin ∨ Upd σ a u.origin)
-  idUniq : ∀ a b u m, u ∈ σ.q a b → σ.cur m = some u.id → u.origin = m ∧ u.seq = σ.seq m
-  seenCur : ∀ c m i, σ.cur m = some i → i ∈ (σ.st c).seen → c ≠ m → Upd σ c m
-  K : ∀ m, seq0 m < σ.seq m → ∀ n, (n = m ∨ Upd σ n m) → ∀ b, hasKey (adj n) b = true → b ≠ m →
-        Upd σ b m ∨ ∃ u, u ∈ σ.q n b ∧ u.origin = m ∧ u.seq = σ.seq m ∧ u.id ∉ (σ.st b).seen
-  K2 : ∀ n m, n ≠ m → seq0 m < σ.seq m → Upd σ n m → (σ.st n).known m = some (adj m)
-
-/-! ### originate preserves Good -/
-theorem good_originate {seq0 : Node → Nat} {σ : Net} (ht : Topo adj) (hg : Good adj seq0 σ)
-    (m : Node) (i : UId) (hi : i ∉ σ.used) : Good adj seq0 (originate adj σ m i) := by
-  have updNe : ∀ n x, x ≠ m → (Upd (originate adj σ m i) n x ↔ Upd σ n x) := by
-    intro n x hx; simp [Upd, originate, hx]
-  have updM : ∀ n, ¬ Upd (originate adj σ m i) n m := by
-    intro n h
-    simp only [Upd, originate, if_true] at h
-    have := hg.noFuture n m _ h; omega
-  have memq : ∀ a b u, u ∈ (originate adj σ m i).q a b →
-      u ∈ σ.q a b ∨ (u = ⟨m, i, σ.seq m + 1, adj m⟩ ∧ a = m ∧ hasKey (adj m) b = true) := by
-    intro a b u hu
-    simp only [originate] at hu
-    split at hu
-    · rename_i hc
-      rcases List.mem_cons.mp hu with h | h
-      · right; exact ⟨h, hc.1, hc.2⟩
-      · left; exact h
-    · left; exact hu
-  have qmono : ∀ a b u, u ∈ σ.q a b → u ∈ (originate adj σ m i).q a b := by
-    intro a b u hu
-    simp only [originate]
+theorem remoteStep_id (R : StaleRule) (s : NodeState) (u : Update) (recv : Node) :
+    (remoteStep R s u recv).1.id = s.id := by
+  unfold remoteStep
+  split
+  · rfl
+  · simp only
     split
-    · exact List.mem_cons_of_mem _ hu
-    · exact hu
-  refine ⟨?_, ?_, ?_, ?_, ?_, ?_, ?_, ?_, ?_, ?_⟩
-  · intro x; have := hg.seqMono x; simp only [originate]; split <;> (try subst_vars) <;> omega
-  · intro n x k hk
-    have := hg.noFuture n x k (by simpa [originate] using hk)
-    simp only [originate]; split <;> (try subst_vars) <;> omega
-  · intro n j hj
-    have := hg.seenUsed n j (by simpa [originate] using hj)
-    simp [originate, this]
-  · intro x j hj
-    simp only [originate] at hj ⊢
-    split at hj
-    · cases hj; simp
-    · exact List.mem_cons_of_mem _ (hg.curUsed x j hj)
-  · intro a b u hu
-    rcases memq a b u hu with h | ⟨h, ha, hb⟩
-    · obtain ⟨h1, h2, h3, h4⟩ := hg.qOk a b u h
-      refine ⟨h1, ?_, by simp [originate, h3], h4⟩
-      simp only [originate]; split <;> (try subst_vars) <;> omega
-    · subst h; subst ha
-      exact ⟨hb, by simp [originate], by simp [originate], rfl⟩
-  · intro a b u hu hseq
-    rcases memq a b u hu with h | ⟨h, ha, hb⟩
-    · have hne : u.origin ≠ m := by
-        intro he
-        have := (hg.qOk a b u h).2.1
-        simp only [originate, he, if_true] at hseq
-        rw [he] at this; omega
-      have hseq' : u.seq = σ.seq u.origin := by simpa [originate, hne] using hseq
-      obtain ⟨h1, h2⟩ := hg.qCur a b u h hseq'
-      refine ⟨by simpa [originate, hne] using h1, ?_⟩
-      rcases h2 with h2 | h2
-      · left; exact h2
-      · right; exact (updNe a _ hne).mpr h2
-    · subst h; subst ha
-      exact ⟨by simp [originate], Or.inl rfl⟩
-  · intro a b u x hu hc
-    rcases memq a b u hu with h | ⟨h, ha, hb⟩
-    · have hid := (hg.qOk a b u h).2.2.1
-      by_cases hx : x = m
-      · subst hx
-        simp only [originate, if_true] at hc
-        cases hc; exact absurd hid hi
-      · have hc' : σ.cur x = some u.id := by simpa [originate, hx] using hc
-        obtain ⟨h1, h2⟩ := hg.idUniq a b u x h hc'
-        exact ⟨h1, by simp [originate, hx, h2]⟩
-    · subst h; subst ha
-      by_cases hx : x = a
-      · subst hx; exact ⟨rfl, by simp [originate]⟩
-      · have hc' : σ.cur x = some i := by simpa [originate, hx] using hc
-        exact absurd (hg.curUsed x i hc') hi
-  · intro c x j hc hj hcx
-    have hj' : j ∈ (σ.st c).seen := by simpa [originate] using hj
-    by_cases hx : x = m
-    · subst hx
-      simp only [originate, if_true] at hc
-      cases hc
-      exact absurd (hg.seenUsed c _ hj') hi
-    · have hc' : σ.cur x = some j := by simpa [originate, hx] using hc
-      exact (updNe c x hx).mpr (hg.seenCur c x j hc' hj' hcx)
-  · intro x hx n hn b hb hbx
-    by_cases hxm : x = m
-    · subst hxm
-      have hnm : n = x := by
-        rcases hn with h | h
-        · exact h
-        · exact absurd h (updM n)
-      subst hnm
-      right
-      refine ⟨⟨n, i, σ.seq n + 1, adj n⟩, ?_, rfl, by simp [originate], ?_⟩
-      · simp [originate, hb]
-      · intro hmem
-        have : i ∈ (σ.st b).seen := by simpa [originate] using hmem
-        exact hi (hg.seenUsed b i this)
-    · have hx' : seq0 x < σ.seq x := by simpa [originate, hxm] using hx
-      have hn' : n = x ∨ Upd σ n x := by
-        rcases hn with h | h
-        · left; exact h
-        · right; exact (updNe n x hxm).mp h
-      rcases hg.K x hx' n hn' b hb hbx with h | ⟨u, hu, h1, h2, h3⟩
-      · left; exact (updNe b x hxm).mpr h
-      · right
-        exact ⟨u, qmono _ _ _ hu, h1, by simp [originate, hxm, h2], by simpa [originate] using h3⟩
-  · intro n x hnx hx hupd
-    by_cases hxm : x = m
-    · subst hxm; exact absurd hupd (updM n)
-    · have hx' : seq0 x < σ.seq x := by simpa [originate, hxm] using hx
-      have := hg.K2 n x hnx hx' ((updNe n x hxm).mp hupd)
-      simpa [originate] using this
+    · simp [noticeStep_id]
+    · split
+      · split <;> simp [acceptStep]
+      · simp [acceptStep]
 
-end Flood
+theorem acceptStep_seen (s : NodeState) (u : Update) : (acceptStep s u).seen = s.seen := rfl
+theorem acceptStep_id (s : NodeState) (u : Update) : (acceptStep s u).id = s.id := rfl
+theorem acceptStep_conns (s : NodeState) (u : Update) : (acceptStep s u).conns = s.conns := rfl
+
+/-- requests to the tick runners, i.e. actions that are not messages -/
+def isReq : Action → Bool
+  | .send _ _ => false
+  | _ => true
+
+/-- shape of what a remote-origin step does: nothing at all, or requests followed by exactly
+the relay of the update; in the second case the update's ID is appended to the seen table -/
+theorem remoteStep_shape (R : StaleRule) (s : NodeState) (u : Update) (recv : Node) :
+    ((remoteStep R s u recv).2 = [] ∧ ((remoteStep R s u recv).1.seen = s.seen ∨
+        (remoteStep R s u recv).1.seen = s.seen ++ [u.updateID])) ∨
+    (¬ (R.dedupFirst && s.seen.contains u.updateID) = true ∧
+      (remoteStep R s u recv).1.seen = s.seen ++ [u.updateID] ∧
+      ∃ pre, (∀ a ∈ pre, isReq a = true) ∧
+        (remoteStep R s u recv).2 = pre ++ relayActs R (markSeen s u.updateID) u recv) := by
+  unfold remoteStep
+  split
+  · left; exact ⟨rfl, Or.inl rfl⟩
+  · rename_i hd
+    simp only
+    split
+    · right; exact ⟨hd, by rw [noticeStep_seen]; rfl, [], by simp, by simp⟩
+    · split
+      · split
+        · left; exact ⟨rfl, Or.inr rfl⟩
+        · right
+          refine ⟨hd, rfl, _, ?_, rfl⟩
+          intro a ha; split at ha <;> simp at ha; subst ha; rfl
+      · right
+        refine ⟨hd, rfl, [Action.reqFlood] ++ (if changedBy (markSeen s u.updateID) u then [Action.reqTable] else []), ?_, by simp⟩
+        intro a ha
+        simp only [List.mem_append, List.mem_singleton] at ha
+        cases ha with
+        | inl h => subst h; rfl
+        | inr h => split at h <;> simp at h; subst h; rfl
+
+theorem relaysOf_append (me : Node) (i : UpdateID) (a b : List Action) :
+    relaysOf me i (a ++ b) = relaysOf me i a ++ relaysOf me i b := by
+  simp [relaysOf, List.filter_append]
+
+theorem relaysOf_reqs (me : Node) (i : UpdateID) (pre : List Action) (h : ∀ a ∈ pre, isReq a = true) :
+    relaysOf me i pre = [] := by
+  simp only [relaysOf, List.filter_eq_nil_iff]
+  intro a ha
+  have := h a ha
+  cases a <;> simp [isReq] at this ⊢
+
+theorem step_id (R : StaleRule) (s : NodeState) (u : Update) (recv : Node) (fresh : UpdateID) :
+    (step R s u recv fresh).1.id = s.id := by
+  unfold step
+  split
+  · rfl
+  · split
+    · exact selfStep_id s u fresh
+    · exact remoteStep_id R s u recv
+
+end Receptor.Flood
